@@ -141,6 +141,7 @@ class Executor(object):
         self.fns_used = {}
         self.shared_hook = None
         self.call_hook = None
+        self.capture_cuts = False
 
     def reset(self):
         self.panics = []  # (guard, message, fn name, bb)
@@ -155,6 +156,7 @@ class Executor(object):
         self.nmerges = 0
         self.depth = 0
         self.nshared = 0
+        self.cuts = []
 
     # ------------------------------------------------------------ shared-memory steps
     def shared(self, kind, ref, st, pc):
@@ -541,6 +543,9 @@ class Executor(object):
                 g = S.And(pc, live)
                 if g is not S.FALSE:
                     self.unwinds.append((g, fn.name, b))
+                    if self.capture_cuts:
+                        # loop cut: keep the state at the loop head for inductive reasoning
+                        self.cuts.append((g, st.copy(), fr, b))
                 return None, S.FALSE
             visits = dict(visits)
             visits[b] = cnt
@@ -620,7 +625,11 @@ class Executor(object):
                     conds.append((c, bb))
                     others.append(S.Not(c))
                 if term[3] is not None:
-                    conds.append((S.And(others), term[3]))
+                    leaves = S.leaf_consts(v) if v.sort != S.B else None
+                    if leaves is not None and leaves <= set(val & ((1 << v.sort) - 1) for val, _ in term[2]):
+                        pass  # every value the discriminant can take has an explicit target
+                    else:
+                        conds.append((S.And(others), term[3]))
                 feas = [(c, bb) for c, bb in conds if c is not S.FALSE]
                 # merge targets that are the same block
                 if len(feas) == 1 or all(bb == feas[0][1] for _, bb in feas):
@@ -630,11 +639,13 @@ class Executor(object):
                 if p is None:
                     raise Unsupported('no post-dominator for bb%d of %s' % (b, fn.name))
                 results = []
+                dead = []
                 base = S.And(pc, live)
                 for c, bb in feas:
                     if bb not in fn.reach_exit and bb != p:
                         # branch can never return (panic / unreachable): run it for its events only
                         self.run(fr, bb, p, st.copy(), S.And(base, c), visits)
+                        dead.append(c)
                         continue
                     if bb == p:
                         results.append((c, st.copy()))
@@ -642,11 +653,17 @@ class Executor(object):
                     s_i, l_i = self.run(fr, bb, p, st.copy(), S.And(base, c), visits)
                     if s_i is not None and l_i is not S.FALSE:
                         results.append((S.And(c, l_i), s_i))
+                        if l_i is not S.TRUE:
+                            dead.append(S.And(c, S.Not(l_i)))
+                    else:
+                        dead.append(c)
                 if not results:
                     return None, S.FALSE
                 self.nmerges += 1
                 st = merge_states(results)
-                live = S.And(live, S.Or([c for c, _ in results]))
+                # the feasible conditions are an exhaustive case split: only dead parts restrict liveness
+                if dead:
+                    live = S.And(live, S.Not(S.Or(dead)))
                 b = p
             else:
                 raise Unsupported('terminator ' + k)
